@@ -162,7 +162,12 @@ func dirSum(path string, dir *os.File) (string, error) {
 	for _, entry := range entries {
 		sum, err := fileSum(filepath.Join(path, entry.Name()))
 		if err != nil {
-			return "", err
+			if !os.IsNotExist(err) {
+				return "", err
+			}
+			// The entry cannot be opened (e.g. a dangling symbolic link). Do not report the whole
+			// directory as missing: the entry contributes its name with an empty sum.
+			sum = ""
 		}
 		// Include the entry's name so that renames and moves change the sum.
 		if _, err := fmt.Fprintf(h, "%q %s\n", entry.Name(), sum); err != nil {
